@@ -31,49 +31,51 @@ Theorem C11_no_orphans_checker_spec : forall s0 o G v, wf_dag (pg G) ->
      ~ Tainted (pg G) (nd_keys (final_pm G (length (s_g s0)) (s_pm s0) (o_oracle o))) (shield s0 o G) x).
 Proof. exact no_orphans_b_spec. Qed.
 
-(** F5: on the faithful model the no-orphans statement is false. Witness: A<-F<-M<-X, rewrite
-    A->A', rewrite F->F' (still on the old A), abandon M, rebase_descendants(). The records are
-    in the domain, the rebase returns normally, and the visible commit X' has the rewritten
-    ancestor F'. The case lies in the class [known_F5]. (Replayed on the implementation as
-    corpus case 0 of the harness; see work/b-view/F5.md.) *)
-Definition f5_ops : list op :=
+(** F5 (repaired in /repo by ad3bc19): with the ordering relation of the code BEFORE the repair
+    (direct replacements only, [oc_deps_old]) the no-orphans statement is false. Witness:
+    A<-F<-M<-X, rewrite A->A', rewrite F->F' (still on the old A), abandon M,
+    rebase_descendants(). The records are in the domain, the rebase returns normally, and the
+    visible commit X' has the rewritten ancestor F'. With the current relation the same case
+    satisfies the checker (and corpus case 0 of the harness replays it on the implementation:
+    it passes now and fails if the repair is reverted). *)
+Definition f5_before : list op :=
   [ONew [0] 1 false; ONew [1] 2 false; ONew [2] 3 false; ONew [3] 4 false; OCommit;
-   ORewrite 1 None 5; ORewrite 2 None 6; OAbandon 3; ORebase (mk_opts [] 0 false false []); OCommit].
+   ORewrite 1 None 5; ORewrite 2 None 6; OAbandon 3].
+Definition f5_opts : rebase_opts := mk_opts [] 0 false false [].
+Definition f5_ops : list op := f5_before ++ [ORebase f5_opts; OCommit].
 Definition model_case (ops : list op) : case :=
   match run init_state ops [] with
   | (Ok s, vs) => mk_case ops 0 vs (s_g s)
   | (_, vs) => mk_case ops 2 vs []
   end.
-Theorem C11_no_orphans_refuted :
-  in_domain (model_case f5_ops) = true /\
-  okb (model_case f5_ops) = false /\
-  known_F5 (model_case f5_ops) = true /\
-  exists s0 o v, case_parts (model_case f5_ops) = Some (s0, o, v) /\
-                 no_orphans_b s0 o (k_graph (model_case f5_ops)) v = false.
+Theorem C11_no_orphans_old_refuted :
+  exists s0 s', pre_state f5_before = Ok s0 /\ dom_ok s0 f5_opts = true /\
+    f5_class_state s0 f5_opts = true /\
+    rebase_descendants_old s0 f5_opts = Ok s' /\
+    no_orphans_b s0 f5_opts (s_g s') (s_v s') = false.
 Proof.
+  eexists. eexists. split; [vm_compute; reflexivity|].
   split; [vm_compute; reflexivity|]. split; [vm_compute; reflexivity|].
-  split; [vm_compute; reflexivity|].
-  eexists. eexists. eexists. split; [vm_compute; reflexivity|vm_compute; reflexivity].
+  split; [vm_compute; reflexivity|vm_compute; reflexivity].
 Qed.
+Example C11_f5_witness_passes_now :
+  in_domain (model_case f5_ops) = true /\ okb (model_case f5_ops) = true.
+Proof. vm_compute. auto. Qed.
 
-(** No orphans after the rebase loop, outside the class F5, for EVERY processing order that
-    respects the dependencies the implementation computes (a parent that is to be rebased, and a
-    to-be-rebased direct replacement of a rewritten parent, come first), any history, any records,
-    any options and any tree oracle. [s0] is the state when rebase_descendants is called
+(** No orphans after the rebase loop, for EVERY processing order that respects the dependencies
+    the implementation computes (a parent that is to be rebased, and every to-be-rebased commit
+    reached from a parent by following the replacement records, come first), any history, any
+    records, any options and any tree oracle. [s0] is the state when rebase_descendants is called
     (invariant [J]: well-formed graph and view), [T] the set of commits to rebase
     (find_descendants_for_rebase), [s1] the state after transform_commits' loop (before the
     references are updated). Every commit of [s1] that has no rewritten/abandoned record and is in
     scope (an ancestor of a head, a key or an immutable commit; or a commit created by the loop) is
     clean: unless shielded (immutable, or an ancestor of a commit with a divergent record) it does
     not descend, through unshielded commits, from a rewritten or abandoned commit.
-    Hypotheses: [noF5] = outside the (broad) class: the direct replacement of a rewritten/abandoned
-    parent of a commit to be rebased is not itself rewritten/abandoned; replacement targets are in
-    scope. *)
+    Hypothesis: replacement targets are in scope. *)
 Theorem C11_no_orphans_loop : forall (s0 : state) (o : rebase_opts),
   J s0 ->
   let T := find_descendants_for_rebase s0 (o_imm o) in
-  (forall x p r t, In x T -> In p (c_parents (getc (s_g s0) x)) ->
-     pm_nd (s_pm s0) p = Some r -> In t (new_parent_ids r) -> pm_nd (s_pm s0) t = None) ->
   (forall k r t, In (k, r) (s_pm s0) -> In t (new_parent_ids r) -> In t (scope s0 (o_imm o))) ->
   forall order s1,
   valid_from s0 o [] order -> (forall x, In x T -> In x order) ->
@@ -83,27 +85,33 @@ Theorem C11_no_orphans_loop : forall (s0 : state) (o : rebase_opts),
     let sh := ancs (pg (s_g s1)) (o_imm o ++ div_keys (s_pm s1)) in
     ~ In y sh -> ~ Tainted (pg (s_g s1)) (nd_keys (s_pm s1)) sh y.
 Proof.
-  intros s0 o J0 T F5 Dom order s1 V Tall H.
-  exact (proj2 (loop_clean s0 o J0 F5 Dom order s1 V Tall H)).
+  intros s0 o J0 T Dom order s1 V Tall H.
+  exact (proj2 (loop_clean s0 o J0 Dom order s1 V Tall H)).
 Qed.
 
+(** The order check run on every case means [valid_from]. *)
+Theorem C11_order_check_spec : forall s0 o order,
+  valid_fromb (s_g s0) (s_pm s0) (find_descendants_for_rebase s0 (o_imm o)) [] order = true ->
+  valid_from s0 o [] order.
+Proof. intros s0 o order. apply valid_fromb_spec. Qed.
+
 (** The full statement for the model: for every operation sequence ending in a rebase whose
-    records are in the domain and outside the class F5, the model's own result satisfies every
+    records are in the domain, the model's own result satisfies every
     clause of the checker. *)
 Definition C11_full : Prop :=
-  forall ops, in_domain (model_case ops) = true -> known_F5 (model_case ops) = false ->
-    okb (model_case ops) = true.
+  forall ops, in_domain (model_case ops) = true -> okb (model_case ops) = true.
 
 Example C11_nonvacuous :
   let c := model_case
     [ONew [0] 1 false; ONew [1] 2 false; ONew [2] 3 false; ONew [1] 4 false;
      OSetBookmark 1 [Some 1]; OEdit 1 1; OCommit;
      ORewrite 1 None 5; ORebase (mk_opts [] 0 false false []); OCommit] in
-  in_domain c = true /\ known_F5 c = false /\ okb c = true /\ length (k_graph c) = 9.
+  in_domain c = true /\ okb c = true /\ length (k_graph c) = 9.
 Proof. vm_compute. auto. Qed.
 
 Print Assumptions C11_new_parents_terminates.
 Print Assumptions C11_new_parents_complete.
 Print Assumptions C11_no_orphans_checker_spec.
-Print Assumptions C11_no_orphans_refuted.
+Print Assumptions C11_no_orphans_old_refuted.
+Print Assumptions C11_order_check_spec.
 Print Assumptions C11_no_orphans_loop.
